@@ -132,6 +132,42 @@ func gen(stream string, seed uint64, n int, outp string) {
 			}
 			return wire.Pick(r, nsPool)
 		}
+		if stream == "ambient" && len(pols) > 0 {
+			// direct calls of the hooked functions on arbitrary arguments (also ones the callers never build)
+			idx := func() string { return strconv.Itoa(r.Intn(len(pols))) }
+			opt := func() string {
+				if r.Chance(1, 3) {
+					return "-"
+				}
+				return idx()
+			}
+			for i := r.Intn(3); i > 0; i-- {
+				t := idx()
+				if len(selPols) > 0 && r.Chance(3, 4) { // mostly a policy with selector and ports
+					for k, p := range pols {
+						if p.hasSelector() && len(p.ports) > 0 && r.Chance(1, 2) {
+							t = strconv.Itoa(k)
+						}
+					}
+				}
+				out.Line("cv", t, opt(), opt())
+			}
+			if r.Chance(1, 2) {
+				var l []string
+				for k := range pols {
+					if r.Chance(2, 3) {
+						l = append(l, strconv.Itoa(k))
+					}
+				}
+				if r.Chance(1, 2) {
+					for a, b := 0, len(l)-1; a < b; a, b = a+1, b-1 {
+						l[a], l[b] = l[b], l[a]
+					}
+				}
+				out.Line("ks", wire.EncList(l))
+				out.Line("go", wire.EncList(l))
+			}
+		}
 		nq := 1 + r.Intn(3)
 		for i := 0; i < nq; i++ {
 			ns := pickNs()
